@@ -73,6 +73,16 @@ CHECKS = {
          "length bound and random deep ones, and the object-level round trip (every rotation, identical singleton) is "
          "executed on the implementation.",
     design="DESIGN.md 7 (C12)", technique="Coq proof (induction on kernel trees) + model/implementation correspondence of the whole chain"),
+ "C02": dict(
+    text="Proof (on top of the rotation theory of C07: rotate_complex_once^n = id, bijective on well-formed aligned pairs): "
+         "ComplexS.identifiers for a request none of whose rotations is registered is total on good input, its canonical "
+         "form is a rotation of the input and <= every rotation in the order (names tuple, structure tuple) by code points, "
+         "turns counts the rotations from the canonical form back to the input, the canonical form is the same for every "
+         "rotation of the input, and two good descriptions share a canonical form only if one is a rotation of the other. "
+         "Unbounded (induction / group argument), including identical strands and rotational symmetry. The registry-level "
+         "clause (a rotation of a live complex resolves to that object) is exercised on the implementation on every run "
+         "(orbits presented in random order, named/unnamed/other-named) and belongs to the registry machine of C01.",
+    design="DESIGN.md 5, 7 (C02)", technique="Coq proof (orbit of rotate_complex_once, minimality by sorted insertion) + model/implementation correspondence"),
 }
 
 NOT_YET = {}
